@@ -14,6 +14,7 @@ MODULES = [
     "contracts.c_formats",
     "contracts.c_calendars",
     "contracts.c_total",
+    "contracts.c_state",
 ]
 
 STANDINS = [
@@ -37,6 +38,7 @@ LEVELS = {
     "C14": "other",
     "C15": "other",
     "C02": "other",
+    "C03": "other",
 }
 
 _COMMON = [
